@@ -31,6 +31,12 @@ CHECKS = {
  "C07": ("exploration", "6 C07",
          "Seeded histories (with killed and resumed backups, zero-length leftovers, deletes, gc) checked step by step against the operation log and a byte-for-byte before/after store image, and two backups of different sources racing as two simulated processes under systematic single-preemption and seeded random schedules; one third of the runs execute the real transport/local.rs on tmpfs behind the interceptor.",
          "deterministic simulation (histories with crash injection; two racing processes under a controlled scheduler) with an operation-log oracle, on both the stub store and the real local transport"),
+ "C09": ("fault_enumeration", "6 C09",
+         "Healthy side: fault-free simulated histories (incl. interrupted-with-header backups, deletes, gc) validated after every step. Damage side: for the final store EVERY file except tails x {delete, truncate 0, truncate half, garbage} + seeded bit flips in blocks; every version is restored before and after, and only damage that changes a restore obliges validate to report.",
+         "deterministic simulation with exhaustive single-file storage-rot injection per scenario; differential restore oracle decides when validate must speak"),
+ "C10": ("fault_enumeration", "6 C10",
+         "For the final store of a simulated history EVERY file except the header x {delete, truncate 0, truncate half, garbage} + bit flips in every file; versions/list/restore of every band, validate twice, a new backup and its restore are run on each damaged world: no panic or hang, untouched files restore exactly, broken files are reported, backup after missing-file damage completes and restores.",
+         "deterministic simulation with exhaustive single-file storage-rot injection per scenario; decoder-based containment oracle, panic and operation-budget detection"),
  "C14": ("fault_enumeration", "6 C14",
          "Operation-log oracles in simulation: an unchanged tree backed up again writes no block and records identical addresses; over histories no block path is written while it holds content; and for EVERY crash point of a backup the resumed backup rewrites nothing and reuses the interrupted run's recorded entries.",
          "deterministic simulation with exhaustive crash-point injection per scenario + operation-log oracle"),
